@@ -294,12 +294,19 @@ class Chooser:
 
 
 class ReplayChooser(Chooser):
-    def __init__(self, schedule: List[int]) -> None:
+    """Replays recorded indices (clipped).  Past the end: index 0 (canonical order), or, for scenarios with a busy
+    sibling coroutine (fair=True), a rotating index so that the continuation stays a fair schedule."""
+
+    def __init__(self, schedule: List[int], fair: bool = False) -> None:
         self.schedule = list(schedule)
         self.pos = 0
+        self.fair = fair
 
     def pick(self, sim: Sim, en: List[Part]) -> int:
-        v = self.schedule[self.pos] if self.pos < len(self.schedule) else 0
+        if self.pos < len(self.schedule):
+            v = self.schedule[self.pos]
+        else:
+            v = (self.pos % len(en)) if self.fair else 0
         self.pos += 1
         return min(max(v, 0), len(en) - 1)
 
